@@ -161,29 +161,44 @@ pub fn classgroup(
     // To avoid wasting CPU on very small inputs, completion is checked after
     // each polynomial to terminate the loop early.
 
+    #[cfg(yamaquasi_verif)] crate::verif::ev(|| format!("\"op\":\"c_stage\",\"par\":{},\"tasks\":{},\"fb\":{},\"target\":{},\"maxlarge\":{}", tpool.is_some(), a_ints.len(), s.qs.fbase.len(), target_rels, maxlarge));
     if let Some(pool) = tpool.as_ref() {
         pool.install(|| {
             a_ints.par_iter().for_each(|&a_int| {
+                #[cfg(yamaquasi_verif)] crate::verif::sched_point("cls.task.done");
+                #[cfg(yamaquasi_verif)] crate::verif::ev(|| format!("\"op\":\"c_task\",\"site\":\"par\",\"done\":{}", s.done.load(Ordering::Relaxed)));
                 if s.done.load(Ordering::Relaxed) || prefs.abort() {
+                    #[cfg(yamaquasi_verif)] crate::verif::ev(|| format!("\"op\":\"c_task_skip\""));
                     return;
                 }
+                #[cfg(yamaquasi_verif)] crate::verif::ev(|| format!("\"op\":\"c_unit_start\""));
                 sieve_a(&s, &a_int, &factors);
+                #[cfg(yamaquasi_verif)] crate::verif::ev(|| format!("\"op\":\"c_unit_end\""));
             });
         });
     } else {
         for a_int in a_ints {
+            #[cfg(yamaquasi_verif)] crate::verif::ev(|| format!("\"op\":\"c_task\",\"site\":\"seq\",\"done\":{}", s.done.load(Ordering::Relaxed)));
+            #[cfg(yamaquasi_verif)] crate::verif::ev(|| format!("\"op\":\"c_unit_start\""));
             sieve_a(&s, &a_int, &factors);
+            #[cfg(yamaquasi_verif)] crate::verif::ev(|| format!("\"op\":\"c_unit_end\""));
+            #[cfg(yamaquasi_verif)] crate::verif::sched_point("cls.loop.done");
+            #[cfg(yamaquasi_verif)] crate::verif::ev(|| format!("\"op\":\"c_pre_poll\",\"done\":{}", s.done.load(Ordering::Relaxed)));
             if s.done.load(Ordering::Relaxed) || prefs.abort() {
+                #[cfg(yamaquasi_verif)] crate::verif::ev(|| format!("\"op\":\"c_loop_exit\""));
                 break;
             }
         }
     }
+    #[cfg(yamaquasi_verif)] crate::verif::ev(|| format!("\"op\":\"c_join\",\"done\":{},\"polys\":{}", s.done.load(Ordering::Relaxed), s.polys_done.load(Ordering::Relaxed)));
     if prefs.abort() {
+        #[cfg(yamaquasi_verif)] crate::verif::ev(|| format!("\"op\":\"c_ret_none\""));
         return None;
     }
     let pdone = s.polys_done.load(Ordering::Relaxed);
     let mm = s.qs.interval_size;
     let rels = s.rels.read().unwrap();
+    #[cfg(yamaquasi_verif)] crate::verif::ev(|| format!("\"op\":\"c_final_len\",\"len\":{},\"target\":{},\"em\":{}", rels.len(), rels.target, rels.emitted.len()));
     if s.prefs.verbose(Verbosity::Info) {
         rels.log_progress(format!(
             "Sieved {}M {pdone} polys",
@@ -196,6 +211,7 @@ pub fn classgroup(
     drop(rels);
     let use_sparse = Some(hmax.log2() >= 128.0 || fbase.len() > SPARSE_LINALG_THRESHOLD);
     let crels = s.result();
+    #[cfg(yamaquasi_verif)] crate::verif::ev(|| format!("\"op\":\"c_result\",\"n\":{}", crels.len()));
     use crate::relationcls;
     let outdir = prefs.outdir.as_ref().map(PathBuf::from);
     relationcls::group_structure(
@@ -314,18 +330,26 @@ fn sieve_a(s: &ClSieve, a_int: &Uint, factors: &Factors) {
     // Storage for recycled resources.
     let mut recycled = None;
     for idx in 0..polys_per_a {
+        #[cfg(yamaquasi_verif)] crate::verif::sched_point("cls.poly.done");
         if s.done.load(Ordering::Relaxed) {
             // Interrupt early.
+            #[cfg(yamaquasi_verif)] crate::verif::ev(|| format!("\"op\":\"c_unit_interrupt\",\"idx\":{}", idx));
             return;
         }
         if idx > 0 {
             pol.next(&s.qs, a);
         }
         //assert!(pol.idx == idx);
+        #[cfg(yamaquasi_verif)] crate::verif::ev(|| format!("\"op\":\"c_poly\",\"idx\":{}", idx));
         recycled = Some(siqs_sieve_poly(s, a, &pol, recycled));
         // Check status.
+        #[cfg(yamaquasi_verif)] crate::verif::sched_point("cls.polys.inc");
         s.polys_done.fetch_add(1, Ordering::SeqCst);
+        #[cfg(yamaquasi_verif)] crate::verif::sched_point("cls.pdone.lock");
+        #[cfg(yamaquasi_verif)] { let g = s.rels.read().unwrap(); crate::verif::ev(|| format!("\"op\":\"c_r_done\",\"site\":\"poly\",\"len\":{},\"target\":{},\"v\":{}", g.len(), g.target, g.done())); }
         if s.rels.read().unwrap().done() {
+            #[cfg(yamaquasi_verif)] crate::verif::sched_point("cls.done.store");
+            #[cfg(yamaquasi_verif)] crate::verif::ev(|| format!("\"op\":\"c_st_done\""));
             s.done.store(true, Ordering::Relaxed);
         }
     }
@@ -371,8 +395,11 @@ fn siqs_sieve_poly(
         sieve_block_poly(s, pol, a, &mut state);
     }
     while state.offset < end_offset {
+        #[cfg(yamaquasi_verif)] crate::verif::sched_point("cls.block.lock");
+        #[cfg(yamaquasi_verif)] { let g = s.rels.read().unwrap(); crate::verif::ev(|| format!("\"op\":\"c_r_done\",\"site\":\"block\",\"len\":{},\"target\":{},\"v\":{}", g.len(), g.target, g.done())); }
         if s.rels.read().unwrap().done() {
             // Exit early if finished.
+            #[cfg(yamaquasi_verif)] crate::verif::ev(|| format!("\"op\":\"c_block_break\""));
             break;
         }
         sieve_block_poly(s, pol, a, &mut state);
@@ -516,9 +543,14 @@ fn sieve_block_poly(s: &ClSieve, pol: &Poly, a: &A, st: &mut sieve::Sieve) {
         };
         #[cfg(yamaquasi_verif)]
         crate::verif::ev(|| vhook::rel_event(&s.d, &pol.description(), x, &bx.to_string(), &rel));
+        #[cfg(yamaquasi_verif)] crate::verif::sched_point("cls.w.lock");
+        #[cfg(yamaquasi_verif)] crate::verif::ev(|| format!("\"op\":\"c_w_req\""));
         let mut rels = s.rels.write().unwrap();
+        #[cfg(yamaquasi_verif)] crate::verif::ev(|| format!("\"op\":\"c_w_acq\""));
         rels.add(rel);
+        #[cfg(yamaquasi_verif)] crate::verif::ev(|| format!("\"op\":\"c_add\",\"len\":{},\"em\":{},\"np\":{},\"nd\":{},\"done\":{}", rels.len(), rels.emitted.len(), rels.n_partials, rels.n_doubles, rels.done()));
         if rels.done() {
+            #[cfg(yamaquasi_verif)] crate::verif::ev(|| format!("\"op\":\"c_smooth_break\""));
             break;
         }
     }
@@ -806,5 +838,34 @@ pub mod vhook_params {
     }
     pub fn double_large_factor(n: &Int) -> u64 {
         super::double_large_factor(n)
+    }
+}
+
+/// Verification accessors (cfg(yamaquasi_verif) only): the smoothness bias from which `classgroup` derives
+/// the size class of its parameters, and the private per-polynomial sieve over a sieve context assembled
+/// the way `classgroup` assembles it (plain field initialisation), for the first unit of work at sizes
+/// where a whole A value cannot finish.  Returns the number of relations collected.
+#[cfg(yamaquasi_verif)]
+pub mod vhook_flow {
+    use super::*;
+
+    pub fn smoothness_bias(d: &Int) -> f64 {
+        super::smoothness_bias(d)
+    }
+
+    pub fn sieve_poly<'a>(d: &Int, qs: siqs::SieveSIQS<'a>, prefs: &'a Preferences, a: &A, pol: &Poly) -> usize {
+        let maxlarge = qs.maxlarge;
+        let s = ClSieve {
+            d: *d,
+            qs,
+            conductor_primes: vec![],
+            prefs,
+            rels: RwLock::new(CRelationSet::new(*d, usize::MAX / 2, maxlarge as u32, None)),
+            done: AtomicBool::new(false),
+            polys_done: AtomicUsize::new(0),
+        };
+        let _ = siqs_sieve_poly(&s, a, pol, None);
+        let n = s.rels.read().unwrap().len();
+        n
     }
 }
